@@ -348,7 +348,9 @@ func (ctx *CheckerContext) SizeOf(typ types.Type) (int64, bool) {
 	if _, ok := typ.(*types.TypeParam); ok {
 		return 0, false
 	}
-	if named, ok := typ.(*types.Named); ok && named.TypeParams() != nil {
+	if named, ok := typ.(*types.Named); ok && named.TypeParams() != nil && named.TypeArgs() == nil {
+		// A generic type that is not instantiated; an instantiated one
+		// (Box[int]) has a size like any other type.
 		return 0, false
 	}
 	return ctx.safeSizesInfoSizeof(typ)
